@@ -5,7 +5,7 @@
 EXTENDS Recv, Json, IOUtils, TLCExt
 Cases == JsonDeserialize(IOEnv.TRACE_FILE)
 VARIABLES cid, done
-Offset(m) == CASE m = "meth" -> 1 [] m = "other" -> 2 [] m = "deco" -> 3 [] OTHER -> 0
+Offset(m) == CASE m = "meth" -> 1 [] m = "other" -> 2 [] m = "deco" -> 3 [] m = "tree" -> 5 [] OTHER -> 0
 ExpectedV(c, i) == IF c.method = "prop" THEN -2 ELSE 10 + (i - 1) + Offset(c.method)
 EventsOfCall(c, i) == SelectSeq(c.events, LAMBDA e : e.call = i)
 Verdicts(c) ==
@@ -14,13 +14,15 @@ Verdicts(c) ==
   ELSE UNION { LET evs == EventsOfCall(c, i)
                    \* when the method is an inner step of a call path (poll > obj.meth > v) only calls made under poll count
                    under == ~c.nested \/ c.via[i]
-                   want == IF under /\ AFires(c.target, c.calls[i]) THEN 1 ELSE 0
-                   mwant == IF under /\ MFires(c.target, c.calls[i]) THEN 1 ELSE 0
+                   \* the recursive method runs once for every instance of the receiver's subtree
+                   runs == IF c.method = "tree" THEN Subtree(c.calls[i]) ELSE {c.calls[i]}
+                   want == IF under THEN Cardinality({r \in runs : AFires(c.target, r)}) ELSE 0
+                   mwant == IF under THEN Cardinality({r \in runs : MFires(c.target, r)}) ELSE 0
                IN (IF Len(evs) = want THEN {}
                    ELSE {<<IF Len(evs) > want THEN "WrongReceiverObserved" ELSE "ReceiverMissed",
                            IF Len(evs) = mwant THEN "mech" ELSE "other">>}) \cup
                   (IF \A k \in DOMAIN evs : (c.method = "prop" \/ evs[k].v = ExpectedV(c, i))
-                                            /\ (c.target \in Classes \/ evs[k].self = c.calls[i])
+                                            /\ (c.target \in Classes \/ evs[k].self = (IF c.method = "tree" THEN c.target ELSE c.calls[i]))
                    THEN {} ELSE {<<"EventContent", "">>})
              : i \in DOMAIN c.calls }
        \cup (IF c.rets_ok THEN {} ELSE {<<"ReturnValue", "">>})
